@@ -2,6 +2,7 @@
 //! Each subcommand reads JSON lines on stdin and writes one JSON line per command on stdout.
 mod flat;
 mod exec;
+mod threads;
 
 use std::io::{self, BufRead, Write};
 use std::sync::atomic::{AtomicU64, Ordering};
@@ -43,6 +44,7 @@ fn main() {
     let cmd = args.get(1).map(|s| s.as_str()).unwrap_or("");
     match cmd {
         "exec" => exec::main(),
+        "threads" => threads::main(),
         _ => {
             eprintln!("usage: vrt <exec|...>");
             std::process::exit(64);
